@@ -40,3 +40,76 @@ Theorem bool_reads_all_lexical_forms :
   forall s b, lex_boolean_value s = Some b -> xml_to_bool s = Some b.
 Proof. exact bool_reads_all_l. Qed.
 Print Assumptions bool_reads_all_lexical_forms.
+
+(* ------------------------------------------------------------------ *)
+(* dates and times (model: C06/DateTime.v, lemmas: C06/TimeProofs.v)   *)
+(* ------------------------------------------------------------------ *)
+From SV Require Import C06.DateTime C06.TimeProofs.
+
+(* Fractional seconds of ANY length are rounded half-up to the microsecond:
+   truncating to six digits and bumping when the seventh is >= 5 equals
+   floor(F * 10^6 / 10^n + 1/2), carried through seconds, minutes and hours
+   (a time of day wraps at midnight). *)
+Theorem time_round_half_up : forall f t up,
+  time_f_lex f = true -> time_of_fields f = Ok (t, up) ->
+  (us_of_tod (if up then bump_time t else t) = spec_us_of_fields f mod day_us)%Z.
+Proof. exact time_round_half_up_l. Qed.
+Print Assumptions time_round_half_up.
+
+(* every field record the scanner can produce meets the hypothesis above *)
+Theorem scanned_fields_lexical : forall s f r, scan_hms s = Some (f, r) -> time_f_lex f = true.
+Proof. exact scan_hms_lex. Qed.
+Print Assumptions scanned_fields_lexical.
+
+(* zone designators: offset is exactly +-(60h+m) minutes, 24h and more rejected *)
+Theorem zone_exact : forall s z, scan_zone s = Some z ->
+  tz_of_fields z = match spec_tz z with Some tz => Ok tz | None => ErrValue end.
+Proof. exact zone_exact_scanned. Qed.
+Print Assumptions zone_exact.
+
+Theorem zone_offset : forall neg h m tz, tz_of_fields (ZOff neg h m) = Ok tz ->
+  tz_offset tz = Some ((if neg then -1 else 1) * (60 * dval h + match m with Some m => dval m | None => 0 end))%Z
+  /\ (dval h < 24)%Z.
+Proof. exact zone_offset_l. Qed.
+Print Assumptions zone_offset.
+
+(* what is written (isoformat) reads back to the same value and UTC offset *)
+Theorem time_roundtrip : forall t tz, tod_ok t = true -> tz_ok tz = true ->
+  exists tz', parse_time (iso_time t tz) = Ok (t, tz') /\ tz_offset tz' = tz_offset tz.
+Proof. exact time_roundtrip_l. Qed.
+Print Assumptions time_roundtrip.
+
+Theorem date_roundtrip : forall c, civil_ok c = true -> parse_date (iso_date c) = Ok c.
+Proof. exact date_roundtrip_l. Qed.
+Print Assumptions date_roundtrip.
+
+Theorem datetime_roundtrip : forall c t tz, civil_ok c = true -> tod_ok t = true -> tz_ok tz = true ->
+  exists tz', parse_datetime (iso_datetime c t tz) = Ok (c, t, tz') /\ tz_offset tz' = tz_offset tz.
+Proof. exact datetime_roundtrip_l. Qed.
+Print Assumptions datetime_roundtrip.
+
+(* the microsecond carry of a dateTime goes through the day, month and year:
+   the decoded instant is exactly (day number, half-up-rounded microseconds) *)
+Theorem datetime_carry : forall s df tf zf c t tz,
+  scan_datetime s = Some (df, tf, zf) -> parse_datetime s = Ok (c, t, tz) ->
+  exists c0, date_of_fields df = Ok c0 /\
+  (day_number c * day_us + us_of_tod t = day_number c0 * day_us + spec_us_of_fields tf)%Z.
+Proof. exact datetime_carry_l. Qed.
+Print Assumptions datetime_carry.
+
+(* text that is not a date/time/dateTime, or names an impossible one, raises ValueError *)
+Theorem malformed_raises : forall s,
+  (scan_time s = None -> parse_time s = ErrValue) /\
+  (scan_date s = None -> parse_date s = ErrValue) /\
+  (scan_datetime s = None -> parse_datetime s = ErrValue) /\
+  (forall tf zf, scan_time s = Some (tf, zf) -> (23 < dval (f_h tf))%Z -> parse_time s = ErrValue) /\
+  (forall df zf, scan_date s = Some (df, zf) ->
+      valid_civil (dval (f_y df)) (dval (f_mo df)) (dval (f_d df)) = false ->
+      (dval (f_y df) <= c_int_max)%Z -> parse_date s = ErrValue).
+Proof. exact malformed_raises_l. Qed.
+Print Assumptions malformed_raises.
+
+Example time_nonvacuous :
+  parse_time [50;51;58;53;57;58;53;57;46;57;57;57;57;57;57;53;90]%N    (* "23:59:59.9999995Z" *)
+  = Ok (mkTod 0 0 0 0, TzUtc).
+Proof. reflexivity. Qed.
